@@ -14,6 +14,7 @@ mod ops_syntax;
 mod ops_pattern;
 mod report;
 mod rng;
+mod scope;
 mod util;
 
 use report::Report;
@@ -80,6 +81,7 @@ fn main() {
             return;
         }
         "compiler" => ops_engine::compiler_tie(&mut rep, n, seed, thorough),
+        "lower" => ops_engine::lower_tie(&mut rep, n, seed, thorough),
         "c12classes" => ops_engine::c12_classes(&mut rep, n, seed, thorough),
         "c12sets" => ops_api::c12_sets(&mut rep, n, seed),
         "c16" => ops_api::c16(&mut rep, n, seed),
